@@ -275,7 +275,7 @@ pub fn run_wide(s: Suite, proof: bool, n: usize, dup: usize, label: &str) -> Obs
 }
 
 pub fn run(env: &Env) {
-    env.ctx.set_rule("alphabet of 8 generating operations on identical fixed inputs (proof_gen D=none, proof_gen D=all, blind_proof_gen, commit M=0, commit M=2, BlindFactor::random, KeyPair::random, generate_random_secret); ALL histories of length <= 3 (584) x 4 thread placements (same thread; fresh OS thread per op; two concurrent threads from a barrier; a reused thread that generated before) x 2 suites, the freshness invariant evaluated after every operation over everything produced so far; each single op repeated 64 times; wide shapes: proof_gen with EVERY U in 0..=72 (thorough 0..=300) and {128, 257} hidden messages and commit with every such M, judged inside the single transcript; transcripts with EQUAL hidden / committed messages (all equal, period 2, period 3); the same histories in two child processes (cross-process). Invariant: all witness-recomputed blinding scalars, responses, challenges, secrets non-zero, >= 2^128, pairwise distinct and pairwise more than 2^64 apart mod r; all points pairwise distinct; no two-transcript extraction of e / hidden messages / blinding factor; no 32/48-octet window of an encoding equals a hidden scalar, e, or A. State = (suite, placement, history prefix); non-trivial = at least one production-randomness artefact was produced and judged.");
+    env.ctx.set_rule("birthday roots: 2^20 draws of BlindFactor::random and of generate_random_secret(64), 2^14 (thorough 2^19) random key pairs per suite, on 16 threads: no repeat, no zero. alphabet of 8 generating operations on identical fixed inputs (proof_gen D=none, proof_gen D=all, blind_proof_gen, commit M=0, commit M=2, BlindFactor::random, KeyPair::random, generate_random_secret); ALL histories of length <= 3 (584) x 4 thread placements (same thread; fresh OS thread per op; two concurrent threads from a barrier; a reused thread that generated before) x 2 suites, the freshness invariant evaluated after every operation over everything produced so far; each single op repeated 64 times; wide shapes: proof_gen with EVERY U in 0..=72 (thorough 0..=300) and {128, 257} hidden messages and commit with every such M, judged inside the single transcript; transcripts with EQUAL hidden / committed messages (all equal, period 2, period 3); the same histories in two child processes (cross-process). Invariant: all witness-recomputed blinding scalars, responses, challenges, secrets non-zero, >= 2^128, pairwise distinct and pairwise more than 2^64 apart mod r; all points pairwise distinct; no two-transcript extraction of e / hidden messages / blinding factor; no 32/48-octet window of an encoding equals a hidden scalar, e, or A. State = (suite, placement, history prefix); non-trivial = at least one production-randomness artefact was produced and judged.");
     env.ctx.assume("independence/unpredictability of the CSPRNG itself is not decidable by bounded exploration; the check decides absence of reuse, of low-entropy and of small-difference relations within the explored histories, threads and two processes");
     let seed = env.ctx.seed;
     let _ = seed;
@@ -302,8 +302,38 @@ pub fn run(env: &Env) {
         // equal messages inside one transcript: all equal, and repeating with period 2 / 3
         for (n, dup) in [(2usize, 1usize), (3, 1), (5, 1), (4, 2), (6, 3), (7, 2)] { for pr in [true, false] { roots.push(Root { id: format!("{}/equal-messages/{}/n{}/period{}", s.name(), if pr { "proof_gen" } else { "commit" }, n, dup), suite: s, hist: vec![if pr { 0 } else { 4 }], placement: 0, kind: 3, wide: n, dup }); } }
     }
+    // long repetition histories judged for repeats and zeros only: N draws with no repeat rule out a generator whose output
+    // space (or seed) has fewer than about 2*log2(N) - 4 bits; N = 2^20 (key pairs 2^14, thorough 2^19)
+    for s in suites() { for (op, n) in [(5usize, 1usize << 20), (7, 1 << 20), (6, if env.thorough() { 1 << 19 } else { 1 << 14 })] {
+        if s == Suite::Shake256 && op != 6 { continue; } // BlindFactor::random and generate_random_secret do not depend on the suite
+        roots.push(Root { id: format!("{}/birthday/{}/N{}", s.name(), OPS[op], n), suite: s, hist: vec![op], placement: 0, kind: 4, wide: n, dup: 0 });
+    } }
     par_for(&roots, |_, r| {
         if !env.want(&r.id) || env.ctx.out_of_time() { return; }
+        if r.kind == 4 {
+            let zk = z(r.suite);
+            let n = r.wide;
+            let chunks: Vec<usize> = (0..16).collect();
+            let sets: std::sync::Mutex<Vec<Vec<u128>>> = std::sync::Mutex::new(Vec::new());
+            let zeros = std::sync::atomic::AtomicUsize::new(0); let errs = std::sync::atomic::AtomicUsize::new(0);
+            std::thread::scope(|sc| { for _ in &chunks { sc.spawn(|| {
+                let mut v: Vec<u128> = Vec::with_capacity(n / 16);
+                for _ in 0..n / 16 {
+                    let bytes: Option<Vec<u8>> = match r.hist[0] { 5 => zk.random_blind_factor().ok().map(|b| b.to_vec()), 6 => zk.random_keypair().ok().map(|(sk, _)| sk), _ => zk.random_secret(64).ok() };
+                    match bytes { Some(b) if b.len() >= 32 => { if b.iter().all(|&x| x == 0) { zeros.fetch_add(1, std::sync::atomic::Ordering::Relaxed); } v.push(u128::from_be_bytes(b[b.len() - 16..].try_into().unwrap()) ^ u128::from_be_bytes(b[..16].try_into().unwrap())); } _ => { errs.fetch_add(1, std::sync::atomic::Ordering::Relaxed); } }
+                }
+                sets.lock().unwrap().push(v);
+            }); } });
+            let mut all: Vec<u128> = sets.into_inner().unwrap().into_iter().flatten().collect();
+            env.ctx.steps(all.len() as u64); env.ctx.state(&[r.id.as_bytes()]);
+            let total = all.len(); all.sort_unstable(); all.dedup();
+            let (z0, e0) = (zeros.into_inner(), errs.into_inner());
+            if all.len() != total { env.ctx.violation(&format!("C07:birthday:repeat:{}", OPS[r.hist[0]]), &format!("{} of {} values drawn on 16 threads repeat an earlier one: the generator has far fewer than 2^{} possible outputs", total - all.len(), total, 2 * (usize::BITS - total.leading_zeros()) - 6), env.case(&r.id, json!({"operation": OPS[r.hist[0]], "draws": total}))); }
+            if z0 > 0 { env.ctx.violation(&format!("C07:birthday:zero:{}", OPS[r.hist[0]]), &format!("{} of {} drawn values are zero", z0, total), env.case(&r.id, json!({"operation": OPS[r.hist[0]], "draws": total}))); }
+            if e0 > 0 { env.ctx.violation(&format!("C07:birthday:error:{}", OPS[r.hist[0]]), &format!("{} of {} draws failed", e0, n), env.case(&r.id, json!({"operation": OPS[r.hist[0]]}))); }
+            env.ctx.class("birthday"); env.ctx.trace();
+            return;
+        }
         if r.kind == 3 {
             let obs = run_wide(r.suite, r.hist[0] == 0, r.wide, r.dup, "wide");
             env.ctx.step(); env.ctx.state(&[r.id.as_bytes()]);
